@@ -8,12 +8,12 @@ HOOK_COMMITS = ["4ce865f"]
 CHECKS = {
  "C01": ("exploration",
    "runtime monitor: slashability oracle over released signatures of seeded hostile histories (+ record-before-sign assertion at the account boundary)",
-   "Every signature released by the real signer stack over tens of thousands of generated requests (single/batch, by name/by key, duplicate keys, epochs incl. >= 2^63, restarts) is verified cryptographically, attributed to (key, data) and compared pairwise with all earlier releases for that key using the consensus-spec double-vote/surround predicates. A wire slice repeats the workload over TLS/gRPC against the real daemon with SIGKILL restarts. Held on the histories explored; not a proof for all histories.",
+   "Every signature released by the real signer stack over tens of thousands of generated requests (single/batch, by name/by key/by over-long key, duplicate keys, epochs incl. >= 2^63, restarts, GOMAXPROCS cycled 1..61 because batches are partitioned over workers) is verified cryptographically, attributed to (key, data) and compared pairwise with all earlier releases for that key using the consensus-spec double-vote/surround predicates. A wire slice repeats the workload over TLS/gRPC against the real daemon with SIGKILL restarts. Held on the histories explored; not a proof for all histories.",
    "Trusted: the harness's SSZ/signing-root code (cross-checked by verifying Dirk's own signatures), herumi BLS verification, the synthetic account/fetcher standing in for wallet files.",
    "5/C01"),
  "C02": ("exploration",
    "runtime monitor: double-proposal oracle + strict slot monotonicity over released signatures of seeded hostile histories",
-   "Every released proposal signature over generated histories (by name/by key, slots incl. >= 2^63, restarts, service and handler boundary) is verified, then checked against all earlier releases for that key (same slot, different header) and against the strictly-increasing-slot clause. Held on the histories explored.",
+   "Every released proposal signature over generated histories (by name/by key/by over-long key, slots incl. >= 2^63, restarts, service and handler boundary, GOMAXPROCS cycled) is verified; a wire slice repeats it against the real daemon, then checked against all earlier releases for that key (same slot, different header) and against the strictly-increasing-slot clause. Held on the histories explored.",
    "Trusted: harness SSZ roots, herumi BLS verification, synthetic accounts.",
    "5/C02"),
  "C04": ("exploration",
@@ -32,8 +32,8 @@ CHECKS = {
    "Trusted: harness SSZ code, herumi VerifyByte.",
    "5/C08"),
  "C09": ("exploration",
-   "runtime monitor: sequential watermark specification (advancing => signed), twin-instance batch-vs-single differential, exhaustive util.Scatter partition grid",
-   "(1) In generated histories every request the specification calls advancing must be SUCCEEDED with a valid signature; (2) each batch of distinct keys is sent as a batch to one instance and entry-by-entry to a twin with the same history, verdict vectors must agree for sizes 1..400 and GOMAXPROCS 1..61; (3) util.Scatter is called for every n in 1..700 and 35 GOMAXPROCS values and its extents must partition [0,n) (that grid is exhaustive).",
+   "runtime monitor: sequential watermark specification (advancing => signed), twin-instance batch-vs-single differential, exhaustive util.Scatter partition grid, large batches over TLS/gRPC against the real daemon",
+   "(1) In generated histories every request the specification calls advancing must be SUCCEEDED with a valid signature; (2) each batch of distinct keys is sent as a batch to one instance and entry-by-entry to a twin with the same history, verdict vectors must agree for sizes 1..400 and GOMAXPROCS 1..61; (3) util.Scatter is called for every n in 1..700 and 35 GOMAXPROCS values and its extents must partition [0,n) (that grid is exhaustive); (4) a real daemon holding 512 accounts is sent advancing batches of 1..512 entries by name and by key over TLS/gRPC and every entry must come back with a valid signature.",
    "Trusted: oracle.WM transcribes the statement; twin instances share nothing but the generator.",
    "5/C09"),
  "C03": ("fault_enumeration",
@@ -52,18 +52,18 @@ CHECKS = {
    "The model uses Go regexp for matching (anchoring and grouping are its own).",
    "5/C07"),
  "C10": ("exploration",
-   "runtime monitor over the real CLI: never-lowers / covers-maxima / boundary-probe oracle after every import run",
-   "Sequences of imports through the real executable against databases holding real prior decisions; generated files (repeated keys, mixed blocks/attestations, per-field older/equal/newer, malformed numbers/keys, wrong metadata). After each run the database is reopened: no field lower than before; on exit 0 every field covers the maxima of file and history and the boundary requests are refused by the real rules; wrong metadata must fail and change nothing.",
+   "runtime monitor over the real CLI: never-lowers / covers-maxima / boundary-probe oracle after every import run; in-process imports with injected storage write failures",
+   "Sequences of imports through the real executable against databases holding real prior decisions; generated files (repeated keys, mixed blocks/attestations, per-field older/equal/newer, malformed numbers/keys, wrong metadata). After each run the database is reopened: no field lower than before; on exit 0 every field covers the maxima of file and history and the boundary requests are refused by the real rules; wrong metadata must fail and change nothing. Keys include opaque 48-byte values with leading zero nibbles/bytes. A second slice runs the real import in-process while the n-th storage write fails (verifhook): it must never lower a record, and may report success only if every value of the file is recorded.",
    "Decisions probed at rules.Service on the same directory.",
    "5/C10"),
  "C11": ("exploration",
    "runtime monitor: export vs signed-history maxima; CLI export->import round trip and restart compared by identical probe sequences; legacy gob records vs specification",
-   "Histories of real decisions, then in-process and CLI exports must equal the maxima signed; the export is imported by the CLI into an empty instance; the restarted original and the re-imported instance answer the same shuffled probe grid around every watermark identically and as the sequential specification demands; stores pre-populated with legacy gob records must export and decide like the specification seeded with those values.",
+   "Histories of real decisions, then in-process and CLI exports must equal the maxima signed; the export is imported by the CLI into an empty instance; the restarted original and the re-imported instance answer the same shuffled probe grid around every watermark identically and as the sequential specification demands; stores pre-populated with legacy gob records must export and decide like the specification seeded with those values; stores of 75..1000 keys (beyond one iterator batch) and opaque non-BLS keys are included.",
    "Legacy records are gob encodings of structs with the historical field names.",
    "5/C11"),
  "C15": ("exploration",
    "runtime monitor: shadow wait-for graph on an interposed locker with cycle detection, directed schedule steering, stress with injected yields, progress watchdog, race detector",
-   "Liveness is restated as no wait-for cycle + bounded progress. Pairs of batches over ordered key selections are steered (A parked after its i-th lock until B reaches its j-th or a budget expires) for every position pair; 32 goroutines add random load with yields inside the interposer; a cycle found in the shadow graph is a proved deadlock. A finite run cannot decide liveness in general.",
+   "Liveness is restated as no wait-for cycle + bounded progress. Pairs of batches over ordered key selections are steered (A parked after its i-th lock until B reaches its j-th or a budget expires) for every position pair; 32 goroutines add random load with yields inside the interposer; a cycle found in the shadow graph is a proved deadlock; requests are also abandoned by their client while queued. A second child uses the real account fetcher: by-key single and batch requests over accounts created after start-up while accounts are being registered, with a 10 s no-progress watchdog; both children also run under the race detector. A finite run cannot decide liveness in general.",
    "Shadow holds are recorded after acquisition and cleared before release, so a shadow cycle is a real one.",
    "5/C15"),
  "C12": ("exploration",
@@ -73,7 +73,7 @@ CHECKS = {
    "5/C12"),
  "C13": ("fault_enumeration",
    "fault injection at every position of the prepare/execute/contribute message sequence (request and reply legs) with a no-account-anywhere / receiver-rejects / process-survives oracle, in child processes",
-   "For (n,t) in {(2,2),(3,2),(3,3),(4,3),(5,3)}: each fault kind (lost, error reply, duplicate, random share, genuine share for another id, altered commitment, genuine vector too short / too long) is injected at every message position, on requests and on contribution replies; the generation must fail, no participant may hold the account, the receiver must reject an invalid contribution, and the process must survive (a death is attributed to the last logged case).",
+   "For (n,t) in {(2,2),(3,2),(3,3),(4,3),(5,3)}: each fault kind (lost, error reply, duplicate, random share, genuine share for another id, altered commitment, genuine vector too short / too long, empty vector, truncated vector entry, empty share) is injected at every message position, on requests and on contribution replies; the generation must fail, no participant may hold the account, the receiver must reject an invalid contribution, and the process must survive (a death is attributed to the last logged case). A wire slice has the harness play two configured peers against a real daemon, so that faulty contributions and replies pass through the real gRPC sender and receiver.",
    "Faults injected by the routing sender; duplicate execute/contribute deliveries are judged only by consistency of a successful result.",
    "5/C13"),
  "C14": ("exploration",
@@ -83,7 +83,7 @@ CHECKS = {
    "5/C14"),
  "C16": ("exploration",
    "runtime monitor: rogue-caller matrix on the receiver handlers followed by completion of the legitimate generation; share-ownership assertion on every contribution exchange",
-   "Each protocol message x session state x non-peer caller kind (full-permission client, unknown, empty, no identity, near-miss peer names) is sent with hostile content; it must be refused, and the legitimate generation must then still complete with its original parameters and pass the consistency oracle; every contribution request/reply observed must be the share of exactly its addressee.",
+   "Each protocol message x session state x non-peer caller kind (full-permission client, unknown, empty, no identity, near-miss peer names) is sent with hostile content; it must be refused, and the legitimate generation must then still complete with its original parameters and pass the consistency oracle; every contribution request/reply observed must be the share of exactly its addressee; with more peers configured than participating (5 peers, 2..4 participants), a peer outside the generation that sends a well-formed contribution must never be handed another identifier's share.",
    "Caller identity injected the way the ClientInfo interceptor does (C19 covers real certificates).",
    "5/C16"),
  "C17": ("exploration",
@@ -97,13 +97,13 @@ CHECKS = {
    "Completeness uses the narrowest reading of 'matches'.",
    "5/C18"),
  "C19": ("exploration",
-   "runtime monitor on the real daemon over TLS/gRPC: 16 methods x 11 caller credential kinds x 2 CA configurations, with state-effect check on the stopped daemon's directories",
-   "Every RPC of every registered service is called on a real dirk child process with certificates generated at run time; callers without a certificate from the configured authority must obtain nothing and change nothing, accepted callers get exactly what the permission table gives their subject common name (SAN and extra chain certificates must not count).",
+   "runtime monitor on the real daemon over TLS/gRPC: 16 methods x 16 caller credential kinds x 2 CA configurations, with state-effect check on the stopped daemon's directories",
+   "Every RPC of every registered service is called on a real dirk child process with certificates generated at run time; callers without a certificate from the configured authority must obtain nothing and change nothing, accepted callers get exactly what the permission table gives their subject common name (SAN and extra chain certificates must not count). Hostile certificates (self-signed, other authority, expired / not yet valid of each origin, server-only usage) are force-sent so that the server decides; a host trust store holding the other authority and source-port reuse by a different client are covered.",
    "Loopback TCP; state effects read after the daemon stops.",
    "5/C19"),
  "C20": ("exploration",
    "crash monitor: structure-aware hostile inputs + byte mutations against the real handlers (child process, inputs logged first, 8 GiB address-space cap) and against the real daemon over the wire, with canaries",
-   "Tens of thousands of hostile requests for all 16 methods; a process death or an unanswered canary is a violation attributed to the last logged input.",
+   "Tens of thousands of hostile requests for all 16 methods; a process death, an unanswered canary or an input unanswered for 45 s is a violation attributed to the last logged input; a concurrent phase mixes listing, account creation, signing and locking (in-process, over the wire and under the race detector).",
    "A crash means process death or a failed canary; an error reply is fine.",
    "5/C20"),
 }
